@@ -341,6 +341,14 @@ func (h *vHub) issue(op string) {
 		}
 		h.send(c, map[string]interface{}{"id": h.nextId(), "type": "internal",
 			"internal": map[string]interface{}{"type": "incall", "incall": map[string]interface{}{"incall": atoi(f[2])}}})
+	case "fed":
+		// the bookkeeping of a join of a federated room (processRoom: h.federatedSessions[session] = true)
+		// without a second hub to federate with: only the table C07 talks about is touched
+		if _, cs := h.sessionConn(f[1]); cs != nil {
+			h.hub.mu.Lock()
+			h.hub.federatedSessions[cs] = true
+			h.hub.mu.Unlock()
+		}
 	case "limit":
 		for _, b := range h.hub.backend.GetBackends() {
 			if b.Id() == "b"+f[1] {
@@ -430,6 +438,16 @@ func (h *vHub) collect(digestOnly bool) string {
 	h.mu.Unlock()
 	for _, e := range told {
 		toks = append(toks, fmt.Sprintf("B=told(%s,%s)", vEnc(e[0]), h.sym(e[1])))
+	}
+	// sessions on the list of federated sessions (not part of the model's tables: judged, not compared)
+	h.hub.mu.RLock()
+	var feds []string
+	for cs := range h.hub.federatedSessions {
+		feds = append(feds, cs.PublicId())
+	}
+	h.hub.mu.RUnlock()
+	for _, pub := range feds {
+		toks = append(toks, "F="+h.sym(pub))
 	}
 	if digestOnly {
 		toks = nil
@@ -609,7 +627,7 @@ func (g *vGen) step() {
 		if gs := g.sess[s]; gs != nil && gs.alive && gs.conn >= 0 && (strings.HasPrefix(reply, "ok") || gs.internal) {
 			gs.room = room
 		}
-	case k < 58: // message / control
+	case k < 56: // message / control
 		s := g.pickSess(connected)
 		kind := "m"
 		if r.chance(1, 3) {
@@ -633,6 +651,8 @@ func (g *vGen) step() {
 		default:
 			g.emit("msg s%d %s c - %s", s, kind, vEnc(data))
 		}
+	case k < 59: // a session is put on the list of federated sessions
+		g.emit("fed s%d", g.pickSess(func(s *vGenSess) bool { return !s.virtual && !s.internal && s.conn >= 0 }))
 	case k < 64: // disconnect
 		c := 1 + r.intn(6)
 		g.emit("disconnect %d", c)
@@ -1014,7 +1034,31 @@ func (g *vGen) someRs() string   { return g.rsids[g.r.intn(len(g.rsids))] }
 func (g *vGen) opening() string {
 	r := g.r
 	other := func(b int) int { return (b + 1 + r.intn(g.nb-1)) % g.nb }
-	switch r.intn(8) {
+	switch r.intn(9) {
+	case 8:
+		// a session on the list of federated sessions ends (bye, expiry, kicked by a reconnect with its room
+		// session id) or goes on to an ordinary room
+		b := r.intn(g.nb)
+		a := g.opHello(1, b, "c", g.someUser(), 0, 0)
+		rs := g.someRs()
+		if r.chance(1, 2) {
+			g.opJoin(a, g.someRoom(), rs, "ok")
+		}
+		g.emit("fed s%d", a)
+		switch r.intn(4) {
+		case 0:
+			g.opBye(1)
+		case 1:
+			g.opDisconnect(1)
+			g.opHk(3)
+		case 2:
+			o := g.opHello(2, b, "c", g.someUser(), 0, 0)
+			g.opJoin(o, g.someRoom(), rs, "ok")
+		default:
+			g.opJoin(a, g.someRoom(), g.someRs(), "ok")
+			g.opBye(1)
+		}
+		return "federated-session-ends"
 	case 0:
 		// a virtual session, an ordinary member of its room, and a session of another backend in a room of
 		// the same name: messages in all directions
